@@ -67,6 +67,9 @@ type Backend struct {
 	impureOps   []string
 	LogReads    bool
 	pointsOff   bool
+	// PostPoints adds a scheduling point AFTER every operation returns (the
+	// window between a read of the store and what the caller does with it).
+	PostPoints bool
 	// PutHook, when set, sees every value that reaches the wrapped store
 	// (plain puts and puts inside transactions), before it is written.
 	PutHook func(key string, value []byte)
@@ -302,6 +305,21 @@ func (b *Backend) before(kind, key string, inTx bool) (int, error) {
 	return op.Seq, err
 }
 
+// after is called when an operation has returned from the wrapped store.
+func (b *Backend) after(kind, key string) {
+	if !b.PostPoints {
+		return
+	}
+	if t := sched.Current(); t != nil {
+		b.mu.Lock()
+		off := b.pointsOff
+		b.mu.Unlock()
+		if !off {
+			sched.Point("ret-" + kind + ":" + key)
+		}
+	}
+}
+
 // mutated is called after a successful durable mutation.
 func (b *Backend) mutated() {
 	b.mu.Lock()
@@ -341,6 +359,7 @@ func (b *Backend) Put(ctx context.Context, e *physical.Entry) error {
 		b.mutated()
 	}
 	b.note(seq, err)
+	b.after("put", e.Key)
 	return err
 }
 
@@ -351,6 +370,7 @@ func (b *Backend) Get(ctx context.Context, key string) (*physical.Entry, error) 
 	}
 	e, err := b.inner.Get(ctx, key)
 	b.note(seq, err)
+	b.after("get", key)
 	return e, err
 }
 
@@ -364,6 +384,7 @@ func (b *Backend) Delete(ctx context.Context, key string) error {
 		b.mutated()
 	}
 	b.note(seq, err)
+	b.after("delete", key)
 	return err
 }
 
@@ -448,6 +469,7 @@ func (t *tx) Get(ctx context.Context, key string) (*physical.Entry, error) {
 	}
 	e, err := t.inner.Get(ctx, key)
 	t.b.note(seq, err)
+	t.b.after("txget", key)
 	return e, err
 }
 
@@ -496,6 +518,7 @@ func (t *tx) Commit(ctx context.Context) error {
 		t.b.mutated()
 	}
 	t.b.note(seq, err)
+	t.b.after("commit", "")
 	return err
 }
 
